@@ -41,6 +41,22 @@ def repo_head():
         return "?"
 
 
+def relayout(a, r):
+    """The same array values in another memory layout (C order / Fortran order / a strided view of a larger
+    buffer), chosen by the seeded generator `r` (a numpy RandomState or random.Random).  Results of the library
+    must not depend on the layout of the arrays it is handed."""
+    import numpy as np
+    a = np.asarray(a)
+    k = r.randint(0, 3) if hasattr(r, "randint") and not hasattr(r, "randrange") else r.randrange(3)
+    if a.ndim < 2 or k == 0:
+        return np.array(a)
+    if k == 1:
+        return np.asfortranarray(a)
+    big = np.zeros((a.shape[0], 2 * a.shape[1]) + a.shape[2:], dtype=a.dtype)
+    big[:, ::2] = a
+    return big[:, ::2]
+
+
 class ImplementationTimeout(Exception):
     pass
 
